@@ -80,7 +80,7 @@ func c02Event(src, style, format, entry, alg string, interpolate bool, seed int6
 			panic("driver: the generated document does not parse cleanly: " + err.Error() + "\n" + src)
 		}
 		if interpolate {
-			env := &foldingEnv{m: map[string]string{"HOME": "/home/x", "A": "1"}}
+			env := &foldingEnv{m: map[string]string{"HOME": "/home/x", "A": "1", "C02_RENAME": "C02_TARGET"}}
 			if err := pl.Interpolate(env, false); err != nil {
 				ev["failed"] = "skip:interpolate" // not every generated string is valid interpolation syntax
 				return
@@ -252,6 +252,14 @@ func c02Overlap(doc any, rng *rand.Rand) any {
 		// give the pipeline an env block so that env:: fields are signed at all
 		penv = orderedJSON{{"DEPLOY_ENV", "prod"}, {"REGION", "eu"}}
 		top = append(orderedJSON{{"env", penv}}, top...)
+	}
+	// an env-block name that interpolation renames onto a name defined LATER in the block: the
+	// ordered map then holds a dead pair behind the live one (Replace tombstones, it does not compact)
+	penv = append(append(orderedJSON{}, penv...), [2]any{"${C02_RENAME}", "renamed"}, [2]any{"C02_TARGET", "original"})
+	for pi, p := range top {
+		if p[0] == "env" {
+			top[pi] = [2]any{"env", penv}
+		}
 	}
 	var walk func(steps []any)
 	walk = func(steps []any) {
